@@ -57,187 +57,6 @@ mutual
       fragCs p r
 end
 
-theorem pureS_pure : ∀ s : Fun.Term, pureS s = true → Fun.pureTerm s = true
-  | .var .., _ => rfl
-  | .new .., _ => rfl
-  | .paren t, h => by
-    simp only [Fun.pureTerm]
-    exact pureS_pure t (by simpa [pureS] using h)
-  | .lit _, h => by simp [pureS] at h
-  | .op .., h => by simp [pureS] at h
-  | .ifc .., h => by simp [pureS] at h
-  | .ifz .., h => by simp [pureS] at h
-  | .print .., h => by simp [pureS] at h
-  | .letIn .., h => by simp [pureS] at h
-  | .call .., h => by simp [pureS] at h
-  | .ctor .., h => by simp [pureS] at h
-  | .dtor .., h => by simp [pureS] at h
-  | .case .., h => by simp [pureS] at h
-  | .label .., h => by simp [pureS] at h
-  | .goto .., h => by simp [pureS] at h
-  | .exit .., h => by simp [pureS] at h
-
-mutual
-  theorem good_of (p : Fun.CheckedProgram) : ∀ t : Fun.Term, Fun.seqTerm p t = true →
-      fragT p t = true → t.callsMain = false → good p t = true
-    | .var .., _, hf, _ => by simpa [fragT, good] using hf
-    | .lit _, _, _, _ => rfl
-    | .op a o b, hs, hf, hm => by
-      simp only [Fun.seqTerm, Bool.and_eq_true] at hs
-      simp only [fragT, Bool.and_eq_true] at hf
-      simp only [Fun.Term.callsMain, Bool.or_eq_false_iff] at hm
-      simp only [good, Bool.and_eq_true]
-      exact ⟨goodP_of p a hs.1.1.1 hs.1.2 hf.1 hm.1, goodP_of p b hs.1.1.2 hs.2 hf.2 hm.2⟩
-    | .ifc _ a b t e _, hs, hf, hm => by
-      simp only [Fun.seqTerm, Bool.and_eq_true] at hs
-      simp only [fragT, Bool.and_eq_true] at hf
-      simp only [Fun.Term.callsMain, Bool.or_eq_false_iff] at hm
-      simp only [good, Bool.and_eq_true]
-      exact ⟨⟨⟨⟨good_of p a hs.1.1.1 hf.1.1.1.1 hm.1.1.1, good_of p b hs.1.1.2 hf.1.1.1.2 hm.1.1.2⟩,
-        good_of p t hs.1.2 hf.1.1.2 hm.1.2⟩, good_of p e hs.2 hf.1.2 hm.2⟩, hf.2⟩
-    | .ifz _ a t e _, hs, hf, hm => by
-      simp only [Fun.seqTerm, Bool.and_eq_true] at hs
-      simp only [fragT, Bool.and_eq_true] at hf
-      simp only [Fun.Term.callsMain, Bool.or_eq_false_iff] at hm
-      simp only [good, Bool.and_eq_true]
-      exact ⟨⟨⟨good_of p a hs.1.1 hf.1.1.1 hm.1.1, good_of p t hs.1.2 hf.1.1.2 hm.1.2⟩,
-        good_of p e hs.2 hf.1.2 hm.2⟩, hf.2⟩
-    | .print _ a n _, hs, hf, hm => by
-      simp only [Fun.seqTerm, Bool.and_eq_true] at hs
-      simp only [fragT, Bool.and_eq_true] at hf
-      simp only [Fun.Term.callsMain, Bool.or_eq_false_iff] at hm
-      simp only [good, Bool.and_eq_true]
-      exact ⟨⟨good_of p a hs.1 hf.1.1 hm.1, good_of p n hs.2 hf.1.2 hm.2⟩, hf.2⟩
-    | .letIn _ vt b i _, hs, hf, hm => by
-      simp only [Fun.seqTerm, Bool.and_eq_true, Bool.or_eq_true, Bool.not_eq_true'] at hs
-      simp only [fragT, Bool.and_eq_true] at hf
-      simp only [Fun.Term.callsMain, Bool.or_eq_false_iff] at hm
-      simp only [good, Bool.and_eq_true]
-      refine ⟨⟨hf.1.1, good_of p i hs.2 hf.1.2 hm.2⟩, ?_⟩
-      by_cases hcd : Fun.isCodataTy p vt = true
-      · have h3 := hf.2
-        rw [if_pos hcd] at h3 ⊢
-        simp only [Bool.and_eq_true] at h3 ⊢
-        rcases hs.1.1 with h | h
-        · rw [hcd] at h; cases h
-        · exact ⟨goodP_of p b h hs.1.2 h3.1 hm.1, h3.2⟩
-      · have h3 := hf.2
-        rw [if_neg hcd] at h3 ⊢
-        exact good_of p b hs.1.2 h3 hm.1
-    | .call f as _, hs, hf, hm => by
-      simp only [Fun.seqTerm, Bool.and_eq_true] at hs
-      simp only [fragT, Bool.and_eq_true] at hf
-      simp only [Fun.Term.callsMain, Bool.or_eq_false_iff] at hm
-      simp only [good, Bool.and_eq_true, bne_iff_ne, ne_eq]
-      exact ⟨⟨by simpa using hm.1, goodPs_of p as hs.1 hs.2 hf.1 hm.2⟩, hf.2⟩
-    | .ctor _ as _, hs, hf, hm => by
-      simp only [Fun.seqTerm, Bool.and_eq_true] at hs
-      simp only [fragT, Bool.and_eq_true] at hf
-      simp only [Fun.Term.callsMain] at hm
-      simp only [good, Bool.and_eq_true]
-      exact ⟨goodPs_of p as hs.1 hs.2 hf.1 hm, hf.2⟩
-    | .dtor s _ _ as _, hs, hf, hm => by
-      simp only [Fun.seqTerm, Bool.and_eq_true] at hs
-      simp only [fragT, Bool.and_eq_true] at hf
-      simp only [Fun.Term.callsMain, Bool.or_eq_false_iff] at hm
-      simp only [good, Bool.and_eq_true]
-      have hps : Fun.pureTerm s = true := pureS_pure s hf.1.1.1.1
-      exact ⟨⟨⟨⟨hf.1.1.1.1, goodP_of p s hps hs.1.1 hf.1.1.1.2 hm.1⟩, hf.1.1.2⟩,
-        goodPs_of p as hs.1.2 hs.2 hf.1.2 hm.2⟩, hf.2⟩
-    | .case s _ cs _, hs, hf, hm => by
-      simp only [Fun.seqTerm, Bool.and_eq_true] at hs
-      simp only [fragT, Bool.and_eq_true] at hf
-      simp only [Fun.Term.callsMain, Bool.or_eq_false_iff] at hm
-      simp only [good, Bool.and_eq_true]
-      exact ⟨⟨⟨good_of p s hs.1 hf.1.1.1 hm.1, hf.1.1.2⟩, goodCs_of p cs hs.2 hf.1.2 hm.2⟩, hf.2⟩
-    | .label _ t _, hs, hf, hm => by
-      simp only [Fun.seqTerm] at hs
-      simp only [fragT, Bool.and_eq_true] at hf
-      simp only [Fun.Term.callsMain] at hm
-      simp only [good, Bool.and_eq_true]
-      exact ⟨good_of p t hs hf.1 hm, hf.2⟩
-    | .goto _ t _, hs, hf, hm => by
-      simp only [Fun.seqTerm] at hs
-      simp only [fragT, Bool.and_eq_true] at hf
-      simp only [Fun.Term.callsMain] at hm
-      simp only [good, Bool.and_eq_true]
-      exact ⟨⟨good_of p t hs hf.1.1 hm, hf.1.2⟩, hf.2⟩
-    | .exit t _, hs, hf, hm => by
-      simp only [Fun.seqTerm] at hs
-      simp only [fragT, Bool.and_eq_true] at hf
-      simp only [Fun.Term.callsMain] at hm
-      simp only [good, Bool.and_eq_true]
-      exact ⟨good_of p t hs hf.1 hm, hf.2⟩
-    | .paren t, hs, hf, hm => by
-      simp only [Fun.seqTerm] at hs
-      simp only [fragT] at hf
-      simp only [Fun.Term.callsMain] at hm
-      simp only [good]
-      exact good_of p t hs hf hm
-    | .new .., _, hf, _ => by simp [fragT] at hf
-  theorem goodP_of (p : Fun.CheckedProgram) : ∀ t : Fun.Term, Fun.pureTerm t = true →
-      Fun.seqTerm p t = true → fragP p t = true → t.callsMain = false → goodP p t = true
-    | .var .., _, _, _, _ => rfl
-    | .lit _, _, _, _, _ => rfl
-    | .op a o b, hp, hs, hf, hm => by
-      simp only [Fun.pureTerm, Bool.and_eq_true] at hp
-      simp only [Fun.seqTerm, Bool.and_eq_true] at hs
-      simp only [fragP, Bool.and_eq_true] at hf
-      simp only [Fun.Term.callsMain, Bool.or_eq_false_iff] at hm
-      simp only [goodP, Bool.and_eq_true]
-      exact ⟨⟨hp.1.1, goodP_of p a hp.1.2 hs.1.2 hf.1 hm.1⟩, goodP_of p b hp.2 hs.2 hf.2 hm.2⟩
-    | .ctor _ as _, hp, hs, hf, hm => by
-      simp only [Fun.pureTerm] at hp
-      simp only [Fun.seqTerm, Bool.and_eq_true] at hs
-      simp only [fragP] at hf
-      simp only [Fun.Term.callsMain] at hm
-      simp only [goodP]
-      exact goodPs_of p as hp hs.2 hf hm
-    | .new cs _, _, hs, hf, hm => by
-      simp only [Fun.seqTerm] at hs
-      simp only [fragP] at hf
-      simp only [Fun.Term.callsMain] at hm
-      simp only [goodP]
-      exact goodCs_of p cs hs hf hm
-    | .paren t, hp, hs, hf, hm => by
-      simp only [Fun.pureTerm] at hp
-      simp only [Fun.seqTerm] at hs
-      simp only [fragP] at hf
-      simp only [Fun.Term.callsMain] at hm
-      simp only [goodP]
-      exact goodP_of p t hp hs hf hm
-    | .ifc .., hp, _, _, _ => by simp [Fun.pureTerm] at hp
-    | .ifz .., hp, _, _, _ => by simp [Fun.pureTerm] at hp
-    | .print .., hp, _, _, _ => by simp [Fun.pureTerm] at hp
-    | .letIn .., hp, _, _, _ => by simp [Fun.pureTerm] at hp
-    | .call .., hp, _, _, _ => by simp [Fun.pureTerm] at hp
-    | .dtor .., hp, _, _, _ => by simp [Fun.pureTerm] at hp
-    | .case .., hp, _, _, _ => by simp [Fun.pureTerm] at hp
-    | .label .., hp, _, _, _ => by simp [Fun.pureTerm] at hp
-    | .goto .., hp, _, _, _ => by simp [Fun.pureTerm] at hp
-    | .exit .., hp, _, _, _ => by simp [Fun.pureTerm] at hp
-  theorem goodPs_of (p : Fun.CheckedProgram) : ∀ as : Fun.Terms, Fun.pureTerms as = true →
-      Fun.seqTerms p as = true → fragPs p as = true → as.callsMain = false → goodPs p as = true
-    | .nil, _, _, _, _ => rfl
-    | .cons t r, hp, hs, hf, hm => by
-      simp only [Fun.pureTerms, Bool.and_eq_true] at hp
-      simp only [Fun.seqTerms, Bool.and_eq_true] at hs
-      simp only [fragPs, Bool.and_eq_true] at hf
-      simp only [Fun.Terms.callsMain, Bool.or_eq_false_iff] at hm
-      simp only [goodPs, Bool.and_eq_true]
-      exact ⟨⟨goodP_of p t hp.1 hs.1 hf.1.1 hm.1, hf.1.2⟩, goodPs_of p r hp.2 hs.2 hf.2 hm.2⟩
-  theorem goodCs_of (p : Fun.CheckedProgram) : ∀ cs : Fun.Clauses, Fun.seqClauses p cs = true →
-      fragCs p cs = true → cs.callsMain = false → goodClauses p cs = true
-    | .nil, _, _, _ => rfl
-    | .cons _ _ names ctx b r, hs, hf, hm => by
-      simp only [Fun.seqClauses, Bool.and_eq_true] at hs
-      simp only [fragCs, Bool.and_eq_true] at hf
-      simp only [Fun.Clauses.callsMain, Bool.or_eq_false_iff] at hm
-      simp only [goodClauses, Bool.and_eq_true]
-      exact ⟨⟨⟨⟨good_of p b hs.1 hf.1.1.1.1 hm.1, hf.1.1.1.2⟩, hf.1.1.2⟩, hf.1.2⟩,
-        goodCs_of p r hs.2 hf.2 hm.2⟩
-end
-
 /-- conditions on one definition: in the fragment, parameters pairwise distinct, closed, no
 parameter or binder named `ς` -/
 def defFrag (p : Fun.CheckedProgram) (d : Fun.Def) : Bool :=
@@ -247,22 +66,26 @@ def defFrag (p : Fun.CheckedProgram) (d : Fun.Def) : Bool :=
 
 /-- the fragment of C02 (semantic part) covered by `C02_sem_forward_frag`: sequenced, no call of
 `main`, every definition satisfies `defFrag`, definition names pairwise distinct, parameters of
-`main` are producers -/
+`main` are producers; and (conditions that hold of every accepted program with a valid `main`, see
+Props/C02SemFull.lean) every body satisfies the well-formedness predicate `good` of the simulation
+and `main` has integer parameters and an integer result -/
 def fragOk (p : Fun.CheckedProgram) : Bool :=
   Fun.Sequenced p && Fun.noMainCall p && p.defs.all (defFrag p) &&
   decide (p.defs.map (·.name)).Nodup &&
-  p.defs.all (fun d => d.name != "main" || d.ctx.all (fun b => b.chi == .prd))
+  p.defs.all (fun d => d.name != "main" || d.ctx.all (fun b => b.chi == .prd)) &&
+  p.defs.all (fun d => good p d.body) &&
+  p.defs.all (fun d => d.name != "main" || (d.ctx.all (fun b => isI64T b.ty) && isI64T d.retTy))
 
 theorem progOk_of_fragOk {p : Fun.CheckedProgram} (h : fragOk p = true) : progOk p = true := by
   simp only [fragOk, Bool.and_eq_true, Fun.Sequenced, Fun.noMainCall, List.all_eq_true,
     Bool.not_eq_true'] at h
-  obtain ⟨⟨⟨⟨hseq, hnm⟩, hdf⟩, hnd⟩, hmp⟩ := h
+  obtain ⟨⟨⟨⟨⟨⟨hseq, hnm⟩, hdf⟩, hnd⟩, hmp⟩, hgood⟩, hmt⟩ := h
   simp only [progOk, Bool.and_eq_true, List.all_eq_true]
-  refine ⟨⟨fun d hd => ?_, hnd⟩, hmp⟩
+  refine ⟨⟨⟨fun d hd => ?_, hnd⟩, hmp⟩, hmt⟩
   have h1 := hdf d hd
   simp only [defFrag, Bool.and_eq_true] at h1
   obtain ⟨⟨⟨⟨h1, h2⟩, h3⟩, h4⟩, h5⟩ := h1
   simp only [defOk, Bool.and_eq_true]
-  exact ⟨⟨⟨⟨good_of p d.body (hseq d hd) h1 (hnm d hd), h2⟩, h3⟩, h4⟩, h5⟩
+  exact ⟨⟨⟨⟨hgood d hd, h2⟩, h3⟩, h4⟩, h5⟩
 
 end Scc.Fun2Core.Sem
